@@ -185,6 +185,17 @@ def run(prop, tier, seed, rep):
         segs = [[list(stream[a:b]), rng.choice(("short", "long"))] for a, b in zip([0] + cuts, cuts + [len(stream)])]
         sent = line_info(raw)
         jobs.append((rng.choice(("1090", "radar")), segs, sent, "malformed", "hold"))
+    # a line whose first part is text and whose rest is not UTF-8 (or a multi-byte character cut in two), split exactly
+    # there by a long gap, followed by valid lines: the stale fragment must not swallow the next line
+    for i in range(6 if tier == "quick" else 120):
+        vs = valid_lines(rng, 3)
+        l1, l2, l3 = (b"*" + v.encode() + b";\n" for v in vs)
+        head = rng.choice((b"*8D4840", b"*", b"*8d4840d6202cc371c32ce057", b"x"))
+        tail = rng.choice((b"\xff\xfe20;\n", b"\xfe\n", b"\xc3", b"\xa9;\n", b"\xe2\x82"))
+        rest = b";\n" if not tail.endswith(b"\n") else b""
+        segs = [[list(l1 + head), "long"], [list(tail), rng.choice(("long", "short"))], [list(rest + l2 + l3), "short"]]
+        raw = [l1, head + tail + rest, l2, l3]
+        jobs.append((rng.choice(("1090", "radar")), segs, line_info(raw), "split-invalid", "hold"))
     # server disconnects: radar exits cleanly, or reconnects with --retry-tcp and keeps its aircraft
     for i in range(3 if tier == "quick" else 40):
         vs = valid_lines(rng, 4)
